@@ -15,7 +15,7 @@ func init() {
 	props["C02"] = func(c *Ctx) {
 		n := 500
 		if c.Thorough() {
-			n = 10000
+			n = 3000
 		}
 		c.Sum.Rule = "random histories with a high rate of adversarial provider answers on the login AND the refresh path (alg=none, HMAC with the public key, foreign key with the same kid, " +
 			"missing/unknown kid, tampered payload, stripped signature, two-segment and garbage forms, absent/foreign/near-miss/array audience, absent/foreign/empty/non-string nonce) mixed with honest ones, " +
@@ -29,7 +29,7 @@ func init() {
 	props["C04"] = func(c *Ctx) {
 		n := 500
 		if c.Thorough() {
-			n = 10000
+			n = 3000
 		}
 		c.Sum.Rule = "random histories of 2-3 browsers and an attacker (replayed / swapped / forged / re-cased / duplicated state and code, callbacks under other sessions and hosts, " +
 			"malformed callback queries) against the recording provider, which checks every code exchange field by field (RFC 6749 / 7636) ; store faults at a low rate; " +
@@ -39,7 +39,7 @@ func init() {
 	props["C05"] = func(c *Ctx) {
 		n := 500
 		if c.Thorough() {
-			n = 10000
+			n = 3000
 		}
 		c.Sum.Rule = "random histories in which clients present absent, stale, attacker-chosen, pending and authenticated session ids on every kind of path, 4 cookie prefixes, 2 browsers, faults; " +
 			"every Set-Cookie is read back with an independent RFC 6265 parser; distinct_nontrivial = distinct projected traces reaching a token exchange or write"
@@ -48,7 +48,7 @@ func init() {
 	props["C11"] = func(c *Ctx) {
 		n := 250
 		if c.Thorough() {
-			n = 5000
+			n = 1000
 		}
 		c.Sum.Rule = "long histories (40-120 requests, clock advances across many token lifetimes) against a provider that rotates refresh tokens or not, omits optional members, " +
 			"answers adversarially or fails; the provider's ledger of issued refresh tokens is checked at every refresh exchange; distinct_nontrivial = distinct projected traces reaching a token exchange or write"
@@ -64,7 +64,7 @@ func init() {
 	props["C14"] = func(c *Ctx) {
 		n := 400
 		if c.Thorough() {
-			n = 8000
+			n = 2500
 		}
 		c.Sum.Rule = "random histories with faults, attacks and adversarial provider answers; every credential (client secret, verifiers, access / refresh / ID tokens) is a unique marker and every answer " +
 			"(gRPC status message, headers, body) is scanned for each of them raw, query- and path-escaped, base64 (4 alphabets), hex and inside Basic credentials; distinct_nontrivial = distinct projected traces reaching a token exchange or write"
